@@ -27,8 +27,6 @@ S = DOTALL = _re.DOTALL
 X = VERBOSE = _re.VERBOSE
 A = ASCII = _re.ASCII
 
-_cache: dict = {}
-USED_PATTERNS: set = set()
 
 
 def _rewrite(pattern):
@@ -40,17 +38,13 @@ def _rewrite(pattern):
 
 
 def compile(pattern, flags=0):  # noqa: A001
-    key = (pattern, flags)
-    got = _cache.get(key)
-    if got is None:
-        if isinstance(pattern, _re.Pattern):
-            got = pattern
-        else:
-            pat, _ = _rewrite(pattern)
-            got = _re.compile(pat, flags)
-        _cache[key] = got
-        USED_PATTERNS.add(pattern if not isinstance(pattern, _re.Pattern) else pattern.pattern)
-    return got
+    # No cache of our own: a pattern may be a symbolic value (built from matched text), and a module-level
+    # cache keyed by symbolic objects would leak state from one explored path into the next.  stdlib re caches
+    # compiled patterns itself (CrossHair realises the pattern before it reaches that cache).
+    if isinstance(pattern, _re.Pattern):
+        return pattern
+    pat, _ = _rewrite(pattern)
+    return _re.compile(pat, flags)
 
 
 def finditer(pattern, string, flags=0, pos=None, endpos=None):
